@@ -11,6 +11,7 @@ import (
 	"regexp"
 	"sort"
 	"strings"
+	"sync"
 	"unsafe"
 
 	"github.com/kaptinlin/gozod/core"
@@ -141,6 +142,8 @@ func AsSchema(v reflect.Value) (Schema, bool) {
 // anySample is what an `any`-typed value parameter receives. A discriminated union given a non-map
 // prefault recurses forever in Parse (fatal stack overflow, a C04 matter), so it gets a valid member.
 var anySample any = "x"
+
+var synthMu sync.Mutex
 
 var reSample = regexp.MustCompile("^[a-z]+$")
 
@@ -324,12 +327,19 @@ func Call(recv any, name string, variant int) (res Schema, ok bool, why string) 
 	if !m.IsValid() {
 		return nil, false, "nomethod"
 	}
+	synthMu.Lock() // argument synthesis uses package state; the call itself runs unlocked (C14 calls concurrently)
 	anySample = "x"
 	if strings.Contains(rv.Type().String(), "Discriminated") {
 		anySample = map[string]any{"t": "x", "a": "s"}
 	}
+	var args []reflect.Value
+	ps := hx.Safely(func() { args = SynthArgs(rv, name, m.Type(), variant) })
+	synthMu.Unlock()
+	if ps != "" {
+		return nil, false, "panic"
+	}
 	var outs []reflect.Value
-	if p := hx.Safely(func() { outs = m.Call(SynthArgs(rv, name, m.Type(), variant)) }); p != "" {
+	if p := hx.Safely(func() { outs = m.Call(args) }); p != "" {
 		return nil, false, "panic"
 	}
 	for _, o := range outs {
